@@ -98,8 +98,13 @@ type vc13Round struct {
 
 // vc13Seq is one generated case.
 type vc13Seq struct {
-	CacheOn bool        `json:"cache_on"`
-	Rounds  []vc13Round `json:"rounds"`
+	CacheOn bool `json:"cache_on"`
+
+	// IdxFile makes the rule-list index come from a file URI instead of an
+	// HTTP URL.
+	IdxFile bool `json:"idx_file,omitempty"`
+
+	Rounds []vc13Round `json:"rounds"`
 }
 
 // vc13T is the part of *testing.T and *rapid.T that the runner needs.
@@ -183,6 +188,13 @@ type vc13World struct {
 
 	// probeUsed is the set of probe hosts already asked for.
 	probeUsed map[string]bool
+
+	// srcDir, idxSrc and idxURL are set if the rule-list index comes from a
+	// file URI: the directory and the path of the file that the harness
+	// publishes the index in, and its URI.
+	srcDir string
+	idxSrc string
+	idxURL string
 
 	// hashMax is the size limit of the hash lists.
 	hashMax int
@@ -353,10 +365,22 @@ func vc13NewWorld(
 	cacheOn bool,
 	timeout time.Duration,
 	hashMax int,
+	idxFile bool,
 ) (w *vc13World) {
 	dir, err := os.MkdirTemp(baseDir, "cache-")
 	if err != nil {
 		t.Fatalf("harness: creating cache dir: %v", err)
+	}
+
+	srcDir, idxSrc, idxURL := "", "", ""
+	if idxFile {
+		srcDir, err = os.MkdirTemp(baseDir, "src-")
+		if err != nil {
+			t.Fatalf("harness: creating source dir: %v", err)
+		}
+
+		idxSrc = filepath.Join(srcDir, "index-src.json")
+		idxURL = "file://" + idxSrc
 	}
 
 	w = &vc13World{
@@ -376,9 +400,13 @@ func vc13NewWorld(
 		hashMax:  hashMax,
 
 		probeUsed: map[string]bool{},
+
+		srcDir: srcDir,
+		idxSrc: idxSrc,
+		idxURL: idxURL,
 	}
 
-	w.u, err = vc13NewUnits(dir, w.srv.URL(), w.el, timeout, cacheOn, hashMax)
+	w.u, err = vc13NewUnits(dir, w.srv.URL(), w.el, timeout, cacheOn, hashMax, idxURL)
 	if err != nil {
 		w.close()
 		t.Fatalf("harness: creating units: %v", err)
@@ -394,6 +422,59 @@ func (w *vc13World) close() {
 		tr.CloseIdleConnections()
 	}
 	_ = os.RemoveAll(w.dir)
+	if w.srcDir != "" {
+		_ = os.RemoveAll(w.srcDir)
+	}
+}
+
+// vc13FileIdxScript maps the script of the index to what can happen to an
+// index that is a local file: it is there completely (whatever its size, no
+// limit applies to files), it is missing, it is empty, or it is cut short.
+func vc13FileIdxScript(sc vc13Script) (res vc13Script) {
+	res = vc13Script{Kind: sc.Kind, Fill: sc.Fill, CutPct: sc.CutPct, Flavor: sc.Flavor}
+	switch {
+	case vc13IsOK(sc.Kind), sc.Kind == vc13Empty, sc.Kind == vc13ShortCL, sc.Kind == vc13ChunkTrunc:
+		// Keep.
+	case vc13IsOversize(sc.Kind):
+		res.Kind = vc13OKNew
+	case sc.Kind == vc13HangBody:
+		res.Kind = vc13ShortCL
+	default:
+		res.Kind = vc13S404
+	}
+
+	return res
+}
+
+// publishIndexFile puts the planned index response into the source file of a
+// file-URI index and takes it out of the plan of the server.
+func (w *vc13World) publishIndexFile(resps map[string]*vc13Resp) {
+	r := resps[vc13IdxPath]
+	delete(resps, vc13IdxPath)
+
+	var content []byte
+	switch r.kind {
+	case vc13OKNew, vc13OKSame:
+		content = r.body
+	case vc13Empty:
+		content = []byte{}
+	case vc13ShortCL, vc13ChunkTrunc:
+		// Not the whole object, whatever the percentage says.
+		content = r.body[:max(1, min(r.cut, len(r.body)-3))]
+	default:
+		_ = os.Remove(w.idxSrc)
+
+		return
+	}
+
+	tmp := w.idxSrc + ".new"
+	if err := os.WriteFile(tmp, content, 0o600); err != nil {
+		w.t.Fatalf("harness: writing index source: %v", err)
+	}
+
+	if err := os.Rename(tmp, w.idxSrc); err != nil {
+		w.t.Fatalf("harness: publishing index source: %v", err)
+	}
 }
 
 // try records that a byte of version ver of the slot may be transmitted.
@@ -440,10 +521,7 @@ func (w *vc13World) plan(n int, rd *vc13Round) (resps map[string]*vc13Resp, info
 	info = &vc13RoundInfo{n: n, urls: map[string]*vc13URLInfo{}}
 
 	add := func(path string, sc vc13Script, fresh func(fill, pad int) (body []byte), valid bool, same []byte) (ui *vc13URLInfo) {
-		limit := vc13MaxSize
-		if strings.HasPrefix(path, "/hp/") {
-			limit = w.hashMax
-		}
+		limit := vc13LimitOf(path, w.hashMax)
 
 		// sized returns a well-formed body of exactly want octets.
 		sized := func(want int) (body []byte) {
@@ -1025,6 +1103,27 @@ func (w *vc13World) checkRound(
 		if b == 0 && after.Served[name] != 0 {
 			cls("list-added")
 		}
+
+		// Invalid entries that carry the key of this list, by the stage that
+		// rejects them and by their place relative to the valid entry.
+		if b != 0 && len(okVers) > 0 && hits[vc13IdxPath] > 0 {
+			seenValid := false
+			for _, e := range info.idx.entries {
+				switch {
+				case e.L != name:
+					// Another list.
+				case e.T == "keybad" && seenValid:
+					cls("valid-entry-before-" + vc13BadURLStage(e.U) + "-rejected-duplicate")
+					cls("dupbad:" + e.U + ":after-valid:" + name)
+				case e.T == "keybad":
+					// The valid entry, if any, comes later.
+					cls("valid-entry-after-" + vc13BadURLStage(e.U) + "-rejected-duplicate")
+					cls("dupbad:" + e.U + ":before-valid:" + name)
+				default:
+					seenValid = true
+				}
+			}
+		}
 	}
 
 	if idxApplied && !chain {
@@ -1100,7 +1199,7 @@ func (w *vc13World) checkRestart(seq *vc13Seq, last *vc13Obs, cacheOn bool) (cla
 	defer w.srv.endRound()
 
 	el := &vc13ErrLog{}
-	u, err := vc13NewUnits(w.dir, w.srv.URL(), el, w.timeout, cacheOn, w.hashMax)
+	u, err := vc13NewUnits(w.dir, w.srv.URL(), el, w.timeout, cacheOn, w.hashMax, w.idxURL)
 	if err != nil {
 		t.Fatalf("harness: creating units for restart: %v", err)
 	}
@@ -1113,7 +1212,13 @@ func (w *vc13World) checkRestart(seq *vc13Seq, last *vc13Obs, cacheOn bool) (cla
 		}
 	}
 
-	idxInfo := w.idxInfos[string(last.Files[vc13IdxFile])]
+	idxOnDisk := last.Files[vc13IdxFile]
+	if w.idxSrc != "" {
+		// The index is not cached, it is read from its source every time.
+		idxOnDisk, _ = os.ReadFile(w.idxSrc)
+	}
+
+	idxInfo := w.idxInfos[string(idxOnDisk)]
 	// The storage can only come up if both indexes on disk are usable and
 	// both safe-search lists are on disk (the server refuses everything now,
 	// and a stall in the very first round may have left one of them out).
@@ -1192,7 +1297,7 @@ func vc13RunSeq(
 	seq *vc13Seq,
 	retryOnStall bool,
 ) (stalled bool) {
-	w := vc13NewWorld(t, st, msgs, baseDir, seq.CacheOn, vc13Timeout, vc13FaultHashMax)
+	w := vc13NewWorld(t, st, msgs, baseDir, seq.CacheOn, vc13Timeout, vc13FaultHashMax, seq.IdxFile)
 	defer w.close()
 
 	var classes []string
@@ -1201,6 +1306,12 @@ func vc13RunSeq(
 	before := &vc13Obs{Served: map[string]int{}, Files: map[string][]byte{}}
 	for _, s := range vc13Slots {
 		before.Served[s.name] = 0
+	}
+
+	if seq.IdxFile {
+		for i := range seq.Rounds {
+			seq.Rounds[i].Idx = vc13FileIdxScript(seq.Rounds[i].Idx)
+		}
 	}
 
 	for ri := range seq.Rounds {
@@ -1213,6 +1324,11 @@ func vc13RunSeq(
 		w.prewarm(n, seq)
 
 		resps, info := w.plan(n, rd)
+		if w.idxSrc != "" {
+			w.publishIndexFile(resps)
+			classes = append(classes, "idx-from-file", "idx-from-file:"+info.idxClass)
+		}
+
 		probe := w.newProbe(before, info)
 		probe.units = w.u
 		w.srv.setPlanCancel(resps, nil, probe.look, w.u.cancelRunning, rd.CancelReq, rd.CancelMid)
@@ -1229,6 +1345,11 @@ func vc13RunSeq(
 		}
 
 		hits := w.srv.endRound()
+		if w.idxSrc != "" {
+			// The file is read on every refresh.
+			hits[vc13IdxPath] = 1
+		}
+
 		emsgs := w.el.take()
 		if probeFail != "" {
 			t.Fatalf("C13 violated in round %d: %s\nround: %s\ncase: %s", ri, probeFail, vc13JSON(rd), vc13JSON(seq))
@@ -1394,8 +1515,13 @@ func vc13GenEntries(t *rapid.T, partial, typeErr bool) (es []vc13Entry) {
 				}
 
 				l := rapid.SampledFrom(present).Draw(t, "idx-dup-of")
-				typ := rapid.SampledFrom([]string{"dupsame", "dupalt"}).Draw(t, "idx-dup-type")
-				insert(vc13Entry{T: typ, L: l})
+				typ := rapid.SampledFrom([]string{"dupsame", "dupalt", "keybad", "keybad"}).Draw(t, "idx-dup-type")
+				e := vc13Entry{T: typ, L: l}
+				if typ == "keybad" {
+					e.U = rapid.SampledFrom(vc13BadURLForms).Draw(t, "idx-dup-url").name
+				}
+
+				insert(e)
 			default:
 				insert(vc13Entry{T: rapid.SampledFrom(vc13InvalidEntryTypes).Draw(t, "idx-bad-type")})
 			}
@@ -1415,6 +1541,7 @@ var vc13Targets = []string{"idx", "a", "b", "c", "svc", "ssg", "ssy", "adult", "
 // vc13GenSeq draws a sequence.
 func vc13GenSeq(t *rapid.T) (seq *vc13Seq) {
 	seq = &vc13Seq{CacheOn: rapid.Bool().Draw(t, "cache-on")}
+	seq.IdxFile = rapid.IntRange(0, 5).Draw(t, "idx-file") == 0
 	nRounds := rapid.IntRange(1, 6).Draw(t, "rounds")
 	hangs := 2
 
@@ -1544,6 +1671,8 @@ var vc13RequiredClasses = []string{
 	"fault-without-previous",
 	"fault:conn_close", "fault:hang_hdr", "fault:hang_body", "fault:s404", "fault:s500", "fault:empty",
 	"fault:content_longline", "content-junk:rule", "content-junk:ss",
+	"valid-entry-after-url-rejected-duplicate", "valid-entry-before-url-rejected-duplicate",
+	"idx-from-file:valid", "idx-from-file:fault", "idx-from-file:partial",
 	"parallel", "cancel:seen-by-the-code", "index-empty", "svc-emptyrules-applied", "probe:verdict-while-body-in-flight",
 	"size-limit:applied",
 	"fault:oversize", "fault:oversize_chunked", "fault:oversize_close", "fault:short_cl", "fault:chunk_trunc",
@@ -1672,6 +1801,79 @@ func vc13GridSeqs() (seqs []*vc13Seq) {
 			mid.Entries = es
 			seqs = append(seqs, three(mid))
 		}
+	}
+
+	// An invalid entry that shares its key with a valid one: every form, by
+	// the stage that rejects it, before and after the valid entry, for the
+	// first and for the last key of the index; and for a key that has no
+	// valid entry at all.
+	for _, f := range vc13BadURLForms {
+		for _, l := range []string{"a", "c"} {
+			for _, first := range []bool{true, false} {
+				mid := okRound()
+				var es []vc13Entry
+				for _, e := range allEntries {
+					switch {
+					case e.L != l:
+						es = append(es, e)
+					case first:
+						es = append(es, vc13Entry{T: "keybad", L: l, U: f.name}, e)
+					default:
+						es = append(es, e, vc13Entry{T: "keybad", L: l, U: f.name})
+					}
+				}
+
+				mid.Entries = es
+				seqs = append(seqs, three(mid))
+			}
+		}
+
+		mid := okRound()
+		mid.Entries = []vc13Entry{{T: "valid", L: "a"}, {T: "keybad", L: "b", U: f.name}, {T: "valid", L: "c"}}
+		seqs = append(seqs, three(mid))
+	}
+
+	// The index comes from a file URI: present, missing, empty, cut short, not
+	// JSON, partly invalid, and with a rejected entry before a valid one.
+	{
+		file := func(mid vc13Round) {
+			seq := three(mid)
+			seq.IdxFile = true
+			seqs = append(seqs, seq)
+		}
+
+		file(okRound())
+		for _, k := range []vc13Kind{vc13S404, vc13Empty, vc13ShortCL, vc13Oversize} {
+			mid := okRound()
+			mid.Idx = vc13Script{Kind: k, CutPct: 100}
+			file(mid)
+		}
+
+		mid := okRound()
+		mid.Idx.Flavor = "notjson"
+		file(mid)
+
+		mid = okRound()
+		mid.Entries = []vc13Entry{{T: "nil"}, {T: "valid", L: "a"}, {T: "badkey"}, {T: "valid", L: "c"}}
+		file(mid)
+
+		mid = okRound()
+		mid.Entries = []vc13Entry{{T: "keybad", L: "a", U: "ftp"}, {T: "valid", L: "a"}, {T: "valid", L: "b"}, {T: "valid", L: "c"}}
+		file(mid)
+
+		mid = okRound()
+		mid.S["a"] = vc13Script{Kind: vc13S500, Fill: 3}
+		file(mid)
+	}
+
+	{
+		// A rejected entry on both sides of the valid one, of both stages.
+		mid := okRound()
+		mid.Entries = []vc13Entry{
+			{T: "keybad", L: "b", U: "ftp"}, {T: "keybad", L: "b", U: "emptyurl"}, {T: "valid", L: "b"},
+			{T: "keybad", L: "b", U: "nohost"}, {T: "valid", L: "a"}, {T: "valid", L: "c"},
+		}
+		seqs = append(seqs, three(mid))
 	}
 
 	{
@@ -1808,6 +2010,18 @@ func TestVerifC13FaultGrid(t *testing.T) {
 		req = append(req, fmt.Sprintf("cancel:%d:arrival", i), fmt.Sprintf("cancel:%d:mid", i))
 	}
 
+	for _, f := range vc13BadURLForms {
+		for _, l := range []string{"a", "c"} {
+			req = append(req, "dupbad:"+f.name+":before-valid:"+l, "dupbad:"+f.name+":after-valid:"+l)
+		}
+	}
+
+	req = append(req,
+		"valid-entry-after-url-rejected-duplicate", "valid-entry-before-url-rejected-duplicate",
+		"valid-entry-after-validate-rejected-duplicate", "valid-entry-before-validate-rejected-duplicate",
+	)
+
+	req = append(req, "idx-from-file:valid", "idx-from-file:fault", "idx-from-file:partial", "idx-from-file:garbage")
 	req = append(req, "cancel:seen-by-the-code", "parallel", "index-empty", "svc-emptyrules-applied",
 		"probe:verdict-while-body-in-flight")
 
